@@ -84,7 +84,7 @@ theorem gameOver_is_source (p : Pos) :
     by_cases hc : ((p.whiteStones != 0#8 || p.whiteCaps != 0#8) && (p.blackStones != 0#8 || p.blackCaps != 0#8) &&
         (p.white ||| p.black) != p.c.Mask) = true
     · simp only [hc, if_true]; simp [colorByte, Color.code]
-    · simp only [hc, if_false]; simp
+    · simp only [hc]; simp
   · simp
 
 example : Gen.positionGameOver 0#64 0#64 0#64 0x1ff#64 0#8 5#8 false 0x1ff#64 (128#8, false) 0#8 1#8 = (true, 128#8) := by decide
